@@ -57,6 +57,22 @@ def check_c09(case, ctx):
         raise Violation("two-identical-not-half", f"{kind}: two identical teams get {p!r}")
     if ident:
         ctx.label("identical-teams")
+        # identical teams passed as one and the same list object (e.g. [[p]] * 3): same numbers as with equal copies
+        m = mk_model(cfg)
+        objs = mk_teams(m, teams)
+        first = {}
+        shared = []
+        for i, t in enumerate(teams):
+            key = repr(t)
+            if key in first:
+                shared.append(objs[first[key]])
+            else:
+                first[key] = i
+                shared.append(objs[i])
+        ctx.called()
+        ps = guarded(m.predict_win, shared, what="predict_win (shared team objects)")
+        if ps != p:
+            raise Violation("shared-team-object", f"{kind}: identical teams passed as the same list object give {ps!r}, as equal copies {p!r}")
     # monotonicity in one member's mu
     i, j, delta = case["inc_team"] % n, case["inc_player"], case["delta"]
     j = j % len(teams[i])
